@@ -78,6 +78,9 @@ pub fn curated_by_tag(tag: &str) -> &'static Pos {
 
 // ------------------------------------------------------------------ direct set-up (G-setup)
 
+fn o_side(c: Col) -> Col {
+    c.other()
+}
 fn adjacent(a: Sq, b: Sq) -> bool {
     (file_of(a) - file_of(b)).abs() <= 1 && (rank_of(a) - rank_of(b)).abs() <= 1
 }
@@ -100,6 +103,10 @@ fn place(p: &mut Pos, t: &mut Tape, c: Col, k: Kind) -> bool {
 /// A valid position set up directly.  `None` = rejected (both kings attacked, illegal planted
 /// push, ...); rejections are counted by the caller.
 pub fn setup_position(t: &mut Tape) -> Option<Pos> {
+    setup_position_why(t).ok()
+}
+
+pub fn setup_position_why(t: &mut Tape) -> Result<Pos, String> {
     let mut p = Pos::empty();
     let castle_bias = t.chance(1, 3);
     // kings
@@ -204,33 +211,59 @@ pub fn setup_position(t: &mut Tape) -> Option<Pos> {
                 }
             }
             p.stm = c;
+            // the side that is not to move must not be in check; the pusher usually is not either
+            clear_attackers(&mut p, o_side(c));
+            if t.chance(7, 8) {
+                clear_attackers(&mut p, c);
+            }
+            if p.at(mk(f, home).unwrap()) != Some((c, Kind::P)) {
+                return Err("ep-pawn-removed".into());
+            }
             // rights for the predecessor (before validating it)
             grant_rights(&mut p, t);
-            if p.validate().is_err() {
-                return None;
+            if let Err(e) = p.validate() {
+                return Err(format!("ep-predecessor: {}", e));
             }
             let m = Mv::new(mk(f, home).unwrap(), mk(f, land_rank).unwrap(), None);
             if !p.pseudo_moves().contains(&m) || !p.is_legal(m) {
-                return None;
+                return Err("ep-push-illegal".into());
             }
             let n = p.apply(m);
-            if n.validate().is_err() {
-                return None;
+            if let Err(e) = n.validate() {
+                return Err(format!("ep-successor: {}", e));
             }
-            return Some(n);
+            return Ok(n);
         }
     }
     p.stm = if t.chance(1, 2) { Col::W } else { Col::B };
     if p.in_check(p.stm.other()) {
         p.stm = p.stm.other();
         if p.in_check(p.stm.other()) {
-            return None;
+            let nm = p.stm.other();
+            clear_attackers(&mut p, nm);
         }
     }
     grant_rights(&mut p, t);
     match p.validate() {
-        Ok(()) => Some(p),
-        Err(_) => None,
+        Ok(()) => Ok(p),
+        Err(e) => Err(format!("final: {}", e)),
+    }
+}
+
+/// Construction instead of rejection: remove every (non-king) piece that attacks `c`'s king.
+fn clear_attackers(p: &mut Pos, c: Col) {
+    for _ in 0..16 {
+        let k = match p.king_sq(c) {
+            Some(k) => k,
+            None => return,
+        };
+        let a: Vec<Sq> = p.attackers(k, c.other()).into_iter().filter(|s| !matches!(p.at(*s), Some((_, Kind::K)))).collect();
+        if a.is_empty() {
+            return;
+        }
+        for s in a {
+            p.board[s as usize] = None;
+        }
     }
 }
 
